@@ -7,7 +7,8 @@
 
    A configuration is what the harness can choose at the API boundary
        [g |-> goroutines, sizes |-> unit sizes, F |-> failing items, mode |-> callback behaviour]
-   plus `fixed`: which protocol is modelled (FALSE: the code as it stands, TRUE: with the repair applied).
+   plus `fixed`: which protocol is modelled (TRUE: the code as it stands, i.e. with the repair
+   fixes/C28-*.diff applied; FALSE: the protocol before that repair, kept as the documented "Before" variant).
    mode "item":   the callback fails whenever it is invoked on an item of F
         "once":   it fails the first time it is invoked on an item of F, and succeeds if invoked again
         "sticky": it fails on an item of F and on every invocation after its first failure
